@@ -22,6 +22,8 @@
 #include <dirent.h>
 #include <sched.h>
 #include <poll.h>
+#include <setjmp.h>
+#include <signal.h>
 #include <sys/mman.h>
 #include <sys/syscall.h>
 
@@ -76,26 +78,45 @@ inline void env_setup() {
 // are therefore first tried in a forked child; the child has only the calling
 // thread, so it runs with ONE active thread, where every Galois parallel
 // construct executes inline (nothing in it may use ThreadPool::run with more
-// than one thread, e.g. FileGraph::fromFileInterleaved).  Returns "" if the
-// child survived (or the probe was inconclusive), else how it died.
+// than one thread, e.g. FileGraph::fromFileInterleaved).
+//
+// An AddressSanitizer report costs ~0.3 s (symbolizer), and a defect that
+// kills the process typically does so for thousands of inputs, so the child
+// normally dies quietly (default signal actions); only the first two deaths in
+// a worker are repeated with the sanitizer's handler to obtain the report.
 // ---------------------------------------------------------------------------
+struct Death {
+  bool died = false;
+  std::string how;
+};
+
+inline volatile uint64_t* probe_progress() {
+  static volatile uint64_t* p = (volatile uint64_t*)mmap(
+      nullptr, 4096, PROT_READ | PROT_WRITE, MAP_SHARED | MAP_ANONYMOUS, -1, 0);
+  return p;
+}
+
 template <class F>
-std::string dies_in_child(F f) {
+Death run_in_child(F f, bool quiet) {
+  Death D;
   int pfd[2];
   if (pipe(pfd) != 0)
-    return "";
+    return D;
   fflush(stdout);
   fflush(stderr);
   pid_t p = fork();
   if (p < 0) {
     close(pfd[0]);
     close(pfd[1]);
-    return "";
+    return D;
   }
   if (p == 0) {
     close(pfd[0]);
     dup2(pfd[1], 1);
     dup2(pfd[1], 2);
+    if (quiet)
+      for (int sig : {SIGSEGV, SIGBUS, SIGFPE, SIGILL})
+        signal(sig, SIG_DFL);
     galois::setActiveThreads(1);
     try {
       f();
@@ -117,7 +138,7 @@ std::string dies_in_child(F f) {
         break;
       if (out.size() < (1u << 16))
         out.append(buf, (size_t)k);
-    } else if (sx::now() - t0 > 30) {
+    } else if (sx::now() - t0 > 60) {
       timedout = true;
       kill(p, SIGKILL);
       break;
@@ -127,7 +148,8 @@ std::string dies_in_child(F f) {
   int status = 0;
   waitpid(p, &status, 0);
   if (timedout || (WIFEXITED(status) && WEXITSTATUS(status) == 0))
-    return "";
+    return D; // survived, or inconclusive
+  D.died = true;
   std::string why;
   std::istringstream is(out);
   std::string line;
@@ -141,14 +163,126 @@ std::string dies_in_child(F f) {
       if (why.size() > 500)
         break;
     }
-  if (why.empty())
-    why = "(no diagnostic)";
   if (why.size() > 600)
     why.resize(600);
-  return (WIFSIGNALED(status)
-              ? "killed by signal " + std::to_string(WTERMSIG(status))
-              : "exit status " + std::to_string(WEXITSTATUS(status))) +
-         ": " + why;
+  D.how = (WIFSIGNALED(status)
+               ? "killed by signal " + std::to_string(WTERMSIG(status))
+               : "exit status " + std::to_string(WEXITSTATUS(status))) +
+          (why.empty() ? "" : ": " + why);
+  return D;
+}
+
+inline int& death_reports() {
+  static int n = 0;
+  return n;
+}
+// The first two (non-abort) deaths in a worker are repeated with the
+// sanitizer's signal handler in place to get its report.
+template <class F>
+std::string elaborate(F f, const Death& d) {
+  if (d.how.find("signal 6") == std::string::npos && death_reports() < 2) {
+    ++death_reports();
+    Death d2 = run_in_child(f, false);
+    if (d2.died)
+      return d2.how;
+  }
+  return d.how;
+}
+
+// "" if f survives in a child, else how it died.
+template <class F>
+std::string dies_in_child(F f) {
+  Death d = run_in_child(f, true);
+  if (!d.died)
+    return "";
+  return elaborate(f, d);
+}
+
+// Calls 0..k-1, any of which may kill the process.  invoke(i, check) performs
+// call i and, if check, verifies its result.  The child runs the calls in
+// order and publishes its progress, so one fork suffices when all survive and
+// each death costs one more; died(i, how) is told about every call that kills,
+// the others are then performed and checked in the worker itself.
+template <class Invoke, class Died>
+void guarded_calls(size_t k, Invoke invoke, Died died) {
+  volatile uint64_t* prog = probe_progress();
+  std::vector<char> dead(k, 0);
+  size_t start = 0;
+  while (start < k) {
+    *prog   = start;
+    Death d = run_in_child(
+        [&]() {
+          for (size_t i = start; i < k; ++i) {
+            *prog = i;
+            invoke(i, false);
+          }
+          *prog = k;
+        },
+        true);
+    if (!d.died)
+      break;
+    size_t i = (size_t)*prog;
+    if (i >= k)
+      break;
+    dead[i] = 1;
+    died(i, elaborate([&]() { invoke(i, false); }, d));
+    start = i + 1;
+  }
+  for (size_t i = 0; i < k; ++i)
+    if (!dead[i])
+      invoke(i, true);
+}
+
+// A fork of this (sanitized, multi-megabyte-mapping) process costs several
+// milliseconds, too much for calls that are made for every input.  For calls
+// that are purely sequential, hold no resources and are abandoned together
+// with the graph they ran on (lookups, a per-node std::sort, the unit-range
+// computation) a fatal signal is instead caught in place: the handler jumps
+// back out of the call.  Returns 0 or the signal number.
+inline sigjmp_buf& fault_jmp() {
+  static sigjmp_buf b;
+  return b;
+}
+inline void fault_handler(int sig) { siglongjmp(fault_jmp(), sig); }
+
+template <class F>
+int faults_inline(F f) {
+  struct Restore {
+    struct sigaction old[4];
+    const int sigs[4] = {SIGSEGV, SIGBUS, SIGFPE, SIGILL};
+    Restore() {
+      struct sigaction sa;
+      memset(&sa, 0, sizeof sa);
+      sa.sa_handler = fault_handler;
+      sigemptyset(&sa.sa_mask);
+      for (int i = 0; i < 4; ++i)
+        sigaction(sigs[i], &sa, &old[i]);
+    }
+    ~Restore() {
+      for (int i = 0; i < 4; ++i)
+        sigaction(sigs[i], &old[i], nullptr);
+    }
+  } restore;
+  int sig = sigsetjmp(fault_jmp(), 1);
+  if (sig == 0)
+    f();
+  return sig;
+}
+
+// Like guarded_calls, without forking (see above); a call that faults is
+// reported through died(i, how), where the first two faults in a worker are
+// repeated in a forked child for the sanitizer's report.
+template <class Invoke, class Died>
+void guarded_calls_inline(size_t k, Invoke invoke, Died died) {
+  for (size_t i = 0; i < k; ++i) {
+    int sig = faults_inline([&]() { invoke(i, true); });
+    if (sig) {
+      Death d;
+      d.died = true;
+      d.how  = "killed by signal " + std::to_string(sig);
+      died(i, elaborate([&]() { invoke(i, false); }, d));
+    }
+  }
 }
 
 // ---------------------------------------------------------------------------
